@@ -87,6 +87,15 @@ def _comp_names(cf, out):
     return out
 
 
+def _param_filtered_props(cf, out):
+    for pf in cf.get("props", []):
+        if pf.get("params"):
+            out.add(pf["name"].upper())
+    for sub in cf.get("comps", []):
+        _param_filtered_props(sub, out)
+    return out
+
+
 def c10_known(flt, results, labels, ref, current=None):
     """K5: the query index stores one list of values per (file, key); for a resource that holds
     several components of the type the filter addresses (recurrence overrides, two VTODOs) the
@@ -105,6 +114,7 @@ def c10_known(flt, results, labels, ref, current=None):
         diff |= set(r[1]) ^ base
     if not diff:
         return None
+    k5 = True
     for n in diff:
         raw = current.get(n)
         if raw is None:
@@ -117,8 +127,13 @@ def c10_known(flt, results, labels, ref, current=None):
         for c in cal.walk():
             counts[c.name] = counts.get(c.name, 0) + 1
         if not any(counts.get(t, 0) >= 2 for t in types):
-            return None
-    return "K5"
+            k5 = False
+            # K14: same flattening, across the instances of one property: a prop-filter with a param-filter on a
+            # property that occurs >= 2 times in one component of the resource
+            pnames = _param_filtered_props(flt, set())
+            if not any(len(c.get(pn)) >= 2 for c in cal.walk() for pn in pnames):
+                return None
+    return "K5" if k5 else "K14"
 
 
 # ---------------------------------------------------------------------------
@@ -127,3 +142,36 @@ def c10_known(flt, results, labels, ref, current=None):
 
 def c04_known(cs, event, rel, variant, verdict):
     return None
+
+
+# ---------------------------------------------------------------------------
+# C01: K8
+
+
+K8_RE = None
+
+
+def k8_transform(raw):
+    """What the installed iCalendar library makes of a content line on re-serialisation: a literal
+    backslash (written \\\\) that is followed by a capital N comes back as the newline escape \\n."""
+    import re
+
+    global K8_RE
+    if K8_RE is None:
+        K8_RE = re.compile(rb"(?<!\\)((?:\\\\)*)\\\\N")
+    return K8_RE.sub(rb"\1\\n", raw)
+
+
+def k8_backslash_capital_n(sent, served):
+    """K8: explains a difference between what was PUT and what is served iff the sent object contains a
+    literal backslash followed by 'N' in a value and the served object equals the sent one with exactly that
+    sequence replaced by the newline escape."""
+    from . import icalref
+
+    t = k8_transform(sent)
+    if t == sent:
+        return False
+    try:
+        return icalref.parse_one(served, "VCALENDAR").canon() == icalref.parse_one(t, "VCALENDAR").canon()
+    except icalref.ParseError:
+        return False
